@@ -596,7 +596,7 @@ func (t *smallHuffCodeTable) genForDists(codes []huffCode, count []uint16, maxSy
 				tempCodeLength++
 			}
 		}
-		for x := longCodeLookupLength; x < longCodeLookupLength+2*(1<<(maxLength-distLookupBits)); x++ {
+		for x := longCodeLookupLength; x < longCodeLookupLength+(1<<(maxLength-distLookupBits)); x++ {
 			t.LongCodeLookup[x] = 0
 		}
 
